@@ -1186,13 +1186,13 @@ class Server:
     @PathConditions(PathConditions.path_must_exists)
     @PathPermissions(PathPermissions.readable)
     async def mlsd(self, connection, rest):
+        @worker
         @ConnectionConditions(
             ConnectionConditions.data_connection_made,
             wait=True,
             fail_code="425",
             fail_info="Can't open data connection",
         )
-        @worker
         async def mlsd_worker(self, connection, rest):
             stream = connection.data_connection
             del connection.data_connection
@@ -1245,13 +1245,13 @@ class Server:
     @PathConditions(PathConditions.path_must_exists)
     @PathPermissions(PathPermissions.readable)
     async def list(self, connection, rest):
+        @worker
         @ConnectionConditions(
             ConnectionConditions.data_connection_made,
             wait=True,
             fail_code="425",
             fail_info="Can't open data connection",
         )
-        @worker
         async def list_worker(self, connection, rest):
             stream = connection.data_connection
             del connection.data_connection
@@ -1323,13 +1323,13 @@ class Server:
     )
     @PathPermissions(PathPermissions.writable)
     async def stor(self, connection, rest, mode="wb"):
+        @worker
         @ConnectionConditions(
             ConnectionConditions.data_connection_made,
             wait=True,
             fail_code="425",
             fail_info="Can't open data connection",
         )
-        @worker
         async def stor_worker(self, connection, rest):
             stream = connection.data_connection
             del connection.data_connection
@@ -1370,13 +1370,13 @@ class Server:
     )
     @PathPermissions(PathPermissions.readable)
     async def retr(self, connection, rest):
+        @worker
         @ConnectionConditions(
             ConnectionConditions.data_connection_made,
             wait=True,
             fail_code="425",
             fail_info="Can't open data connection",
         )
-        @worker
         async def retr_worker(self, connection, rest):
             stream = connection.data_connection
             del connection.data_connection
